@@ -353,7 +353,14 @@ func genC05Program(g *sim.Stream, tier string) string {
 		if len(maps) > 0 && g.Bool() {
 			m = maps[g.Intn(len(maps))].Name
 		}
-		switch g.Intn(27) {
+		switch g.Intn(30) {
+		case 27:
+			// the printed form of a thread object (and of a container holding one)
+			fmt.Fprintf(&b, "thx%d := spawn(func(a) { return a }, %d)\nemits(string(thx%d))\nemits(string([thx%d, 1]))\nemits(string(thx%d.wait()))\n", i, i, i, i, i)
+		case 28:
+			fmt.Fprintf(&b, "emits(string(encode([{\"b\": 1, \"a\": 2, \"c\": 3, \"d\": 4}, {\"b\": 5, \"a\": 6, \"c\": 7, \"d\": 8}], \"csv\")))\nemits(string(try(func() { return encode([%s], \"csv\") }, func(e) { return string(e) })))\n", m)
+		case 29:
+			fmt.Fprintf(&b, "emits(string(try(func() { return encode(%s, \"urlquery\") }, func(e) { return string(e) })))\nemits(string(try(func() { return encode(%s, \"json\") }, func(e) { return string(e) })))\n", m, cg.setExpr(1))
 		case 22:
 			b.WriteString("emits(hs.Describe({\"C\": 1.5, \"B\": \"bee\", \"A\": 4}))\nemits(string(hs.Size()))\n")
 		case 23:
